@@ -175,5 +175,8 @@ var _ = filepath.Join
 
 func init() {
 	props["C04"] = common.ExecProperty(execImpl(), "C04", common.ExecGenProtocol)
-	props["C13"] = common.ExecProperty(execImpl(), "C13", common.ExecGenFailures)
+	props["C13"] = common.Combine(map[string]common.Property{
+		"ex": common.ExecProperty(execImpl(), "C13", common.ExecGenFailures),
+		"sw": common.ErrTrackerProperty(snippetImpl()),
+	})
 }
